@@ -254,6 +254,38 @@ class Gen:
         return rng.choice(P)
 
 
+def leaf_diff(a, b, prefix=None):
+    """paths (protocol form) of the leaves at which two canonical store values differ"""
+    out = []
+    if prefix is None:
+        da, db = dict((k, v) for k, v in a.get("d", [])), dict((k, v) for k, v in b.get("d", []))
+        for lab in sorted(set(da) | set(db)):
+            if lab not in da or lab not in db:
+                out.append([lab])
+            else:
+                out += leaf_diff(da[lab], db[lab], [lab])
+        return out
+    if isinstance(a, dict) and isinstance(b, dict) and set(a) == set(b) and len(a) == 1:
+        kind = next(iter(a))
+        if kind in ("d", "o"):
+            step = "i" if kind == "d" else "a"
+            da = dict((json.dumps(k), (k, v)) for k, v in a[kind])
+            db = dict((json.dumps(k), (k, v)) for k, v in b[kind])
+            for kk in sorted(set(da) | set(db)):
+                if kk not in da or kk not in db:
+                    out.append(prefix + [[step, json.loads(kk)]])
+                else:
+                    out += leaf_diff(da[kk][1], db[kk][1], prefix + [[step, da[kk][0]]])
+            return out
+        if kind == "l":
+            if len(a["l"]) != len(b["l"]):
+                return [prefix]
+            for idx, (x, y) in enumerate(zip(a["l"], b["l"])):
+                out += leaf_diff(x, y, prefix + [["i", idx]])
+            return out
+    return [] if json.dumps(a, sort_keys=True) == json.dumps(b, sort_keys=True) else [prefix]
+
+
 class Session:
     """one history: the real manager, the mirror of what the user defined, and the oracles.
     `step(op)` executes one protocol operation and checks every property's oracle on it, so that a
@@ -272,6 +304,9 @@ class Session:
         self.snapshot = None
         self.armed = None          # fault armed by the previous op
         self.P = []
+        self.no_recovery_oracle = False
+        self.recovery_checks = 0
+        self.partial_knob_targets = set()    # targets of linear knobs whose run a fault interrupted after a target write
 
     # ---- plumbing ----
     def emit(self, op):
@@ -286,6 +321,21 @@ class Session:
         st["op:" + op["op"]] = st.get("op:" + op["op"], 0) + 1
         if line["impl"]["exc"] != "ok":
             st["exc:" + line["impl"]["exc"]] = st.get("exc:" + line["impl"]["exc"], 0) + 1
+        if line["impl"]["exc"] == "Fault" and ml.RAN and ml.RAN[-1] is not None:
+            # which task was running when the container raised: a linear knob with several targets of which at least one
+            # had been written has been left half applied (D34's signature)
+            try:
+                import xdeps.tasks as _xt
+                last = json.loads(ml.RAN[-1])
+                for tid, task in self.im.m.tasks.items():
+                    if isinstance(task, _xt.LinearKnob) and ml.id_json(tid) == last and len(task.targets) >= 2:
+                        tars = [json.dumps(ml.path_of_ref(t)) for t in task.targets]
+                        written = [json.dumps(ev[1]) for ev in line["impl"].get("trace", []) if ev and ev[0] == "w"]
+                        if any(t in written for t in tars):
+                            self.partial_knob_targets.update(pkey(json.loads(t)) for t in tars)
+                            st["knob_runs_interrupted_between_targets"] = st.get("knob_runs_interrupted_between_targets", 0) + 1
+            except Exception:
+                pass
         if line["impl"].get("internal_keyerror") and op["op"] in ("set", "setexpr", "iop"):
             # an assignment that dies on a task / location missing from the manager's own tables: none of the tasks it
             # should run has run (C02), the dependants are stale (C01), and a removed definition left a trace (C03)
@@ -297,6 +347,52 @@ class Session:
     def fail(self, prop, kind, detail, known=None):
         self.failures.append({"property": prop, "kind": kind, "hist": self.hist_id, "op_index": len(self.lines) - 1,
                               "detail": detail, "known": known})
+
+    def recovery_oracle(self, p, cyclic):
+        """C18, last sentence, for EVERY kind of dependant (expression, function and linear-knob targets): after the
+        fault-free repeat the containers hold what they would hold had the faulty attempts never been made — the same
+        history without the armed faults and without the attempts they stopped, replayed on a fresh manager."""
+        if self.no_recovery_oracle or self.recovery_checks >= 2 or cyclic:
+            return
+        if self.mirror.dataflow_cyclic() or self.mirror.overlapping_targets():
+            return
+        if any(l["impl"]["exc"] not in ("ok", "Fault") for l in self.lines):
+            return          # another failure left a partial update whose extent depends on the order of independent tasks
+        self.recovery_checks += 1
+        clean = []
+        for l in self.lines:
+            if l["op"] == "fault" or l["impl"]["exc"] == "Fault":
+                continue
+            clean.append({k: v for k, v in l.items() if k not in ("impl", "order", "hist") and not k.startswith("_")})
+        tw = Session(self.hist_id, new_stats(), [], self.family)
+        tw.no_recovery_oracle = True
+        try:
+            for o in clean:
+                tw.step(o)
+        except Exception:
+            return
+        if not tw.lines or any(l["impl"]["exc"] != "ok" for l in tw.lines):
+            return
+        got = ml.canon_val(self.lines[-1]["impl"]["store"])
+        want = ml.canon_val(tw.lines[-1]["impl"]["store"])
+        self.stats["c18_recovered_vs_never_faulted"] = self.stats.get("c18_recovered_vs_never_faulted", 0) + 1
+        if got == want:
+            return
+        differing = leaf_diff(got, want)
+        known = None
+        if self.partial_knob_targets and differing:
+            # D34: every differing location is a target of a knob left half applied, or depends on one
+            down = [json.loads(k) for k in self.partial_knob_targets]
+            try:
+                start = [self.im.ref(t) for t in list(down)]
+                for r in self.im.m.find_deps(start):
+                    down.append(ml.path_of_ref(r))
+            except Exception:
+                pass
+            if all(any(d[:len(t)] == t for t in down) for d in differing):
+                known = "D34"
+        self.fail("C18", "recovered-state-differs-from-never-faulted", {"path": p, "differing": differing[:8] if differing else differing,
+                                                                         "half_applied_knob_targets": sorted(self.partial_knob_targets)}, known)
 
     def quiet_verify(self):
         import io, contextlib
@@ -531,6 +627,8 @@ class Session:
                                 self.fail("C18", "stale-after-repeat", {"location": d[1], "got": repr(got), "want": repr(want)})
             elif op.get("_repeat") and impl["exc"] not in ("KeyError", "IndexError", "TypeError", "AttributeError", "ZeroDivisionError", "OverflowError"):
                 self.fail("C18", "repeat-raises", {"path": p, "exc": impl["exc"]})
+            if op.get("_repeat") and impl["exc"] == "ok":
+                self.recovery_oracle(p, cyc2)
             # ---- C01: pull-model re-evaluation
             if impl["exc"] != "ok" and not (frozen and impl["exc"] == "ValueError"):
                 self.c01_live = False          # (a call rejected by the freeze leaves everything as it was)
@@ -919,6 +1017,21 @@ def collision_corpus_frozen():
                   {"op": "set", "path": M(-1), "value": 5}, {"op": "set", "path": M(-2), "value": 9}]
 
 
+def d34_corpus():
+    """known finding D34, fixed form: a fault between the two target writes of a linear knob, then the fault-free repeat"""
+    X, A, B = (["d", ["i", k]] for k in "xab")
+    yield [{"op": "reset"}, {"op": "container", "label": "d", "value": {"d": [["x", 1], ["a", 10], ["b", 20]]}},
+           {"op": "regknob", "id": "#K9", "src": X, "ws": [2, -1], "tars": [A, B], "alltars": [A, B]},
+           {"op": "set", "path": X, "value": 2},
+           {"op": "fault", "k": 2}, {"op": "set", "path": X, "value": 5},
+           {"op": "set", "path": X, "value": 5, "_repeat": True}]
+    # the fault at the FIRST target write leaves nothing half applied: the repeat recovers
+    yield [{"op": "reset"}, {"op": "container", "label": "d", "value": {"d": [["x", 1], ["a", 10], ["b", 20]]}},
+           {"op": "regknob", "id": "#K9", "src": X, "ws": [2, -1], "tars": [A, B], "alltars": [A, B]},
+           {"op": "fault", "k": 1}, {"op": "set", "path": X, "value": 5},
+           {"op": "set", "path": X, "value": 5, "_repeat": True}]
+
+
 def c13_corpus():
     """the same setter (same name, same references) generated again after the definitions changed"""
     X, Y, W_, Z = (["d", ["i", k]] for k in "xywz")
@@ -1260,7 +1373,7 @@ def main():
             hid += 1
             stats["histories"] += 1
     elif a.corpus:
-        for ops in collision_corpus():
+        for ops in list(collision_corpus()) + (list(d34_corpus()) if a.family == "c18" else []):
             sess = replay_ops(ops, hid, stats, failures, a.family)
             lines.extend(sess.lines)
             hid += 1
